@@ -278,6 +278,7 @@ class PteraTransformer(NodeTransformer):
         self.filename = filename
         self.globals = glb
         self.to_instrument = to_instrument
+        self.declarations = []
         self.result = self.visit_FunctionDef(tree, root=True)
 
     def should_instrument(self, varname, ann=None):
@@ -521,9 +522,18 @@ class PteraTransformer(NodeTransformer):
         for stmt in map(self.visit, stmts):
             if isinstance(stmt, list):
                 new_body.extend(stmt)
-            else:
+            elif stmt is not None:
                 new_body.append(stmt)
         return new_body
+
+    def visit_Global(self, node):
+        # global and nonlocal declarations must come before the code we
+        # insert at the start of the function, which may use the names, so
+        # they are moved to the top of the function.
+        self.declarations.append(node)
+        return None
+
+    visit_Nonlocal = visit_Global
 
     def generate_interactions(self, target):
         if isinstance(target, ast.arguments):
@@ -641,6 +651,7 @@ class PteraTransformer(NodeTransformer):
             exit_tag=self._get("exit_tag"),
         )
 
+        wrapped_body.extend(self.declarations)
         wrapped_body.append(
             ast.Assign(
                 targets=[self._set("proc")],
